@@ -453,7 +453,12 @@ pub fn ref_decode(t: &MType, cell: Option<&[u8]>) -> WResult<MVal> {
                 }
                 Nat::Time => {
                     exact(8)?;
-                    V::Time(r.i64()?)
+                    let ns = r.i64()?;
+                    // spec 6.19: "valid values are in the range 0 to 86399999999999"
+                    if !(0..=86_399_999_999_999).contains(&ns) {
+                        return werr(format!("time {ns} out of range"));
+                    }
+                    V::Time(ns)
                 }
                 Nat::Timeuuid => {
                     exact(16)?;
